@@ -121,7 +121,7 @@ func VerifInternals(adb *AccountDB) string {
 		}
 		fmt.Fprintf(&sb, "%d@%d", r.id, r.journalIndex)
 	}
-	fmt.Fprintf(&sb, " N%d D[", adb.nextRevisionID)
+	fmt.Fprintf(&sb, " N%d L%d D[", adb.nextRevisionID, adb.logSize)
 	var dirty []string
 	for a := range adb.accountObjectsDirty {
 		dirty = append(dirty, string(a[:]))
